@@ -19,6 +19,7 @@ pub fn run(id: &str) -> Result<String, String> {
         "F27" => f27(),
         "F28" => f28(),
         "F29" => f29(),
+        "F30" => f30(),
         _ => Err(format!("unknown witness {id}")),
     }
 }
@@ -435,4 +436,62 @@ fn f3b() -> Result<String, String> {
         if r.is_err() { return Err(format!("reading/querying a CSI index with min_shift={min_shift}, depth={depth} PANICS")); }
     }
     Ok(format!("\"cases\":{n}"))
+}
+
+/// F30: an index / header / container whose announced entry count is huge must be an error (the entries are not there),
+/// not an up-front allocation of tens of gigabytes that aborts the process. Each case runs in a child process under a
+/// 4 GiB address-space limit so that the outcome does not depend on how much memory the host has.
+fn f30() -> Result<String, String> {
+    let exe = std::env::current_exe().map_err(|e| e.to_string())?;
+    let cases = ["csi-n_bin", "tabix-n_bin", "bai-n_ref", "bai-n_bin", "bam-n_ref"];
+    let mut bad = Vec::new();
+    for c in cases {
+        let st = std::process::Command::new("sh").arg("-c")
+            .arg(format!("ulimit -v 4194304; exec {} child-F30-{} 2>/dev/null", exe.display(), c))
+            .status().map_err(|e| e.to_string())?;
+        if !st.success() { bad.push(format!("{c}: child ended with {st}")); }
+    }
+    if !bad.is_empty() { return Err(format!("a reader given a huge entry count ABORTS (memory allocation failed) instead of returning an error: {}", bad.join("; "))); }
+    Ok(format!("\"cases\":{}", cases.len()))
+}
+fn bgzf(raw: &[u8]) -> Vec<u8> { use std::io::Write as _; let mut w = noodles_bgzf::io::Writer::new(Vec::new()); w.write_all(raw).unwrap(); w.finish().unwrap() }
+pub fn child(name: &str) {
+    match name {
+        "F30-csi-n_bin" => {
+            let mut raw = b"CSI\x01".to_vec();
+            raw.extend(14i32.to_le_bytes()); raw.extend(5i32.to_le_bytes()); raw.extend(0i32.to_le_bytes());
+            raw.extend(1i32.to_le_bytes()); raw.extend(i32::MAX.to_le_bytes());
+            let data = bgzf(&raw);
+            let r = noodles_csi::io::Reader::new(&data[..]).read_index();
+            assert!(r.is_err());
+        }
+        "F30-tabix-n_bin" => {
+            let mut raw = b"TBI\x01".to_vec();
+            raw.extend(1i32.to_le_bytes()); // n_ref
+            raw.extend(0i32.to_le_bytes()); raw.extend(1i32.to_le_bytes()); raw.extend(2i32.to_le_bytes()); raw.extend(0i32.to_le_bytes()); // format, col_seq, col_beg, col_end
+            raw.extend((b'#' as i32).to_le_bytes()); raw.extend(0i32.to_le_bytes()); // meta, skip
+            raw.extend(4i32.to_le_bytes()); raw.extend(b"sq0\0"); // l_nm, names
+            raw.extend(i32::MAX.to_le_bytes()); // n_bin
+            let data = bgzf(&raw);
+            let r = noodles_tabix::io::Reader::new(&data[..]).read_index();
+            assert!(r.is_err());
+        }
+        "F30-bai-n_ref" => {
+            let mut raw = b"BAI\x01".to_vec(); raw.extend(u32::MAX.to_le_bytes());
+            let r = noodles_bam::bai::io::Reader::new(&raw[..]).read_index();
+            assert!(r.is_err());
+        }
+        "F30-bai-n_bin" => {
+            let mut raw = b"BAI\x01".to_vec(); raw.extend(1u32.to_le_bytes()); raw.extend(u32::MAX.to_le_bytes());
+            let r = noodles_bam::bai::io::Reader::new(&raw[..]).read_index();
+            assert!(r.is_err());
+        }
+        "F30-bam-n_ref" => {
+            let mut raw = b"BAM\x01".to_vec(); raw.extend(0u32.to_le_bytes()); raw.extend(u32::MAX.to_le_bytes());
+            let data = bgzf(&raw);
+            let r = noodles_bam::io::Reader::new(&data[..]).read_header();
+            assert!(r.is_err());
+        }
+        _ => std::process::exit(2),
+    }
 }
